@@ -4,11 +4,40 @@
    constants found in the source by translator/gen_constants.py (Gen/Constants.v). *)
 From Coq Require Import ZArith QArith List Bool.
 From Pandora Require Import Lib.Ext Lib.Blocks Model.Wta Spec.Wta Proofs.WtaP Gen.Constants.
+From Pandora Require Lib.BlockSkeleton Proofs.SkelWtaP Gen.BlockLoops.
 Import ListNotations.
 
 (* per-run obligation on the regenerated constants *)
 Theorem C03_block_sizes_wf : (1 <= wta_argmin_block)%Z /\ (1 <= wta_argmax_block)%Z.
 Proof. vm_compute. split; discriminate. Qed.
+
+(* per-run obligation on the regenerated SKELETON of the two block loops (Gen/BlockLoops.v, read
+   from argmin_split / argmax_split by translator/gen_block_loops.py): each is the canonical double
+   block loop that Blocks.loop2 models (Lib/BlockSkeleton.v: where every running offset is
+   initialised and advanced and by what, the slice bounds of the write, the axes, one block size
+   >= 1, the kernel applied to the inner chunk, output freshly allocated and not the storage the
+   chunks view), with offsets starting at 0, an np.zeros output, arg-min resp. arg-max as kernel,
+   and its block size is the constant of Gen/Constants.v *)
+Theorem C03_block_loop_skeleton :
+  BlockSkeleton.skeleton_wf BlockLoops.argmin_split = true
+  /\ BlockSkeleton.skeleton_wf BlockLoops.argmax_split = true
+  /\ BlockSkeleton.wta_skeleton_ok false BlockLoops.argmin_split = true
+  /\ BlockSkeleton.wta_skeleton_ok true BlockLoops.argmax_split = true
+  /\ BlockSkeleton.sk_B BlockLoops.argmin_split = wta_argmin_block
+  /\ BlockSkeleton.sk_B BlockLoops.argmax_split = wta_argmax_block.
+Proof. vm_compute. repeat split; reflexivity. Qed.
+
+(* the skeleton as a program (BlockSkeleton.exec: running offsets in an environment, statements
+   in source order, Python-clamped array_split chunks): for EVERY well-formed skeleton, kernel,
+   extents, np.arange stop values and initial state, executing it is loop2 at the skeleton's own
+   block size and start offsets *)
+Theorem C03_wf_skeleton_is_loop2 :
+  forall (A : Type) (F : BlockSkeleton.kernel -> Z -> Z -> A) win my mx tgt sk k ny nx env0 out0 r c,
+  BlockSkeleton.skeleton_wf sk = true -> (0 <= my)%Z -> (0 <= mx)%Z ->
+  BlockSkeleton.last_kernel tgt (BlockSkeleton.sk_writes sk) = Some k ->
+  snd (BlockSkeleton.exec F win my mx tgt sk ny nx (env0, out0)) r c
+  = loop2 (F k) (BlockSkeleton.sk_B sk) ny nx my mx (BlockSkeleton.sk_oy win sk) (BlockSkeleton.sk_ox win sk) out0 r c.
+Proof. exact BlockSkeleton.exec_wf_loop2. Qed.
 
 (* the block decomposition itself: for every B >= 1 and every n (even unrelated to the extent m
    of the split array) the blocks tile [0, m) in order *)
@@ -38,6 +67,22 @@ Section C03.
   Proof.
     intros; apply wta_eq_spec_all; try assumption.
     destruct mx; [exact (proj2 C03_block_sizes_wf) | exact (proj1 C03_block_sizes_wf)].
+  Qed.
+
+  (* the loop of the model IS the loop read in the source: for every volume, shape, measure, every
+     np.arange stop values (ny, nx) and initial environment, the disparity map of the model at the
+     code's block size is, pixel by pixel, what executing the GENERATED skeleton of argmin_split /
+     argmax_split writes into its np.zeros output (all-NaN pixels then get invalid_disparity) *)
+  Theorem C03_model_loop_is_generated_skeleton : forall ny nx env0 r c, (0 <= nr)%Z -> (0 <= nc)%Z ->
+    let sk := if mx then BlockLoops.argmax_split else BlockLoops.argmin_split in
+    o_disp (out (if mx then wta_argmax_block else wta_argmin_block)) r c
+    = if forallb (fun b : bool => b) (map is_nan (cv r c)) then invalid
+      else Some (snd (BlockSkeleton.exec (SkelWtaP.wta_kernel disps cv) 0 nr nc (BlockSkeleton.sk_target 0 sk) sk
+                                         ny nx (env0, fun _ _ => 0%Q)) r c).
+  Proof.
+    intros ny nx env0 r c Hnr Hnc. unfold out.
+    destruct C03_block_loop_skeleton as (_ & _ & Hmin & Hmax & Bmin & Bmax).
+    destruct mx; cbv zeta; [rewrite <- Bmax | rewrite <- Bmin]; apply SkelWtaP.wta_loop_is_skeleton_at; assumption.
   Qed.
 
   (* pixels with no computable cost receive exactly invalid_disparity *)
@@ -135,9 +180,12 @@ Proof.
 Qed.
 
 Print Assumptions C03_block_sizes_wf.
+Print Assumptions C03_block_loop_skeleton.
+Print Assumptions C03_wf_skeleton_is_loop2.
 Print Assumptions C03_blocks_tile.
 Print Assumptions C03_wta_eq_spec.
 Print Assumptions C03_wta_eq_spec_at_code_blocks.
+Print Assumptions C03_model_loop_is_generated_skeleton.
 Print Assumptions C03_wta_invalid_when_no_cost.
 Print Assumptions C03_wta_is_sample.
 Print Assumptions C03_wta_cost_is_extremum.
